@@ -3,7 +3,7 @@ From Bfe Require Import lib.Val lib.Bytes model.TlsRecord.
 Import ListNotations.
 Open Scope Z_scope.
 
-(* input : [ [suiteId vers kind mac bs expl ovh padstyle padx]  [VB write ...]  close  [op ...]  cut  netchunk  rdbuf ]
+(* input : [ [suiteId vers kind mac bs expl ovh padstyle padx]  [VB write ...]  VB final-alert-payload (x0100 = close_notify, x = none)  [op ...]  cut  netchunk  rdbuf ]
      op  : [1 i off mask] flip | [2 i j] swap | [3 i j] dup | [4 i] drop | [5 i t v n] forge | [6 i n] trunc
    output: [VB delivered  status  seq]   (what Conn.Read returned until its first error; final c.in.seq) *)
 Definition dec_op (v : val) : option op :=
@@ -17,14 +17,14 @@ Definition dec_op (v : val) : option op :=
   | _ => None
   end.
 
-Record c42_in := mkIn { i_cfg : cfg; i_writes : list (list Z); i_close : bool; i_script : list op; i_cut : Z }.
+Record c42_in := mkIn { i_cfg : cfg; i_writes : list (list Z); i_close : list Z; i_script : list op; i_cut : Z }.
 
 Definition dec_C42 (v : val) : option c42_in :=
   match v with
-  | VL [VL [VZ _; VZ vers; VZ kind; VZ mac; VZ bs; VZ expl; VZ ovh; VZ pad; VZ padx]; ws; VZ close; VL ops; VZ cutn; VZ _; VZ _] =>
+  | VL [VL [VZ _; VZ vers; VZ kind; VZ mac; VZ bs; VZ expl; VZ ovh; VZ pad; VZ padx]; ws; VB close; VL ops; VZ cutn; VZ _; VZ _] =>
     match as_LB ws, all_some (map dec_op ops) with
     | Some writes, Some script =>
-      Some (mkIn (mkCfg kind mac bs expl ovh vers pad padx) writes (negb (close =? 0)) script cutn)
+      Some (mkIn (mkCfg kind mac bs expl ovh vers pad padx) writes close script cutn)
     | _, _ => None
     end
   | _ => None
@@ -32,9 +32,9 @@ Definition dec_C42 (v : val) : option c42_in :=
 
 (* the records the client produced, and what the adversary turned them into *)
 Definition orig_wire (x : c42_in) : list (srec sbody) :=
-  protect sbody Sealed (i_cfg x) (plain_records (i_cfg x) (i_writes x) (i_close x)).
+  protect sbody sseal (i_cfg x) (plain_records (i_cfg x) (i_writes x) (i_close x)).
 Definition tampered_wire (x : c42_in) : list (srec sbody) * Z :=
-  apply_cut sbody (apply_script sbody (orig_wire x) (i_script x)) (i_cut x).
+  apply_cut sbody (apply_script sbody (sbflip (i_cfg x)) (orig_wire x) (i_script x)) (i_cut x).
 
 (* suite shapes that exist in cipher_suites.go: CBC block size 8 or 16, explicit IV = 0 or one block *)
 Definition cfg_ok (c : cfg) : bool :=
@@ -48,13 +48,24 @@ Definition pads_ok (x : c42_in) : bool :=
           (plain_records (i_cfg x) (i_writes x) (i_close x)).
 
 Definition wf_base (x : c42_in) : bool :=
-  wf_cfg (i_cfg x) && forallb wf_bytes (i_writes x) &&
-  (total sbody (apply_script sbody (orig_wire x) (i_script x)) <? 16000).
+  wf_cfg (i_cfg x) && (forallb wf_bytes (i_writes x) && wf_bytes (i_close x) && (blen (i_close x) <=? 1024)) &&
+  (total sbody (apply_script sbody (sbflip (i_cfg x)) (orig_wire x) (i_script x)) <? 16000).
+(* does the client's final alert end the reading (close_notify, fatal or malformed alert), and how does
+   Read end on the untouched stream *)
+Definition terminal (fin : list Z) : bool :=
+  match fin with [] => false | [lvl; a] => (a =? 0) || negb (lvl =? 1) | _ => true end.
+Definition clean_status (fin : list Z) : Z :=
+  match fin with
+  | [] => 1
+  | [lvl; a] => if a =? 0 then 1 else if lvl =? 1 then 1 else if lvl =? 2 then 300 + a else 110
+  | _ => 110
+  end.
+
 (* Did the adversary change anything the receiver reads?  With a close_notify from the client nothing
    after it is read; without one the whole stream is. *)
 Definition relevant (x : c42_in) : bool :=
   let '(w, trail) := tampered_wire x in
-  if i_close x then negb (srecs_prefix (orig_wire x) w)
+  if terminal (i_close x) then negb (srecs_prefix (orig_wire x) w)
   else negb (srecs_eqb w (orig_wire x) && (trail =? 0)).
 (* finding class 1: the adversary only removed a tail of the stream at a record boundary (or left a
    partial record header there): readRecord reports io.EOF, the same result as an orderly close *)
@@ -62,10 +73,10 @@ Definition tail_dropped (x : c42_in) : bool :=
   let '(w, _) := tampered_wire x in relevant x && srecs_prefix w (orig_wire x).
 
 (* well-formed inputs (what the generator produces): suite shape of the table, writes are bytes, stream
-   below 16000 bytes, and a script that does not change what the receiver reads is written as the empty
+   below 16000 bytes, not the SSLv3-with-long-peer-padding shape of finding 2, and a script that does not change what the receiver reads is written as the empty
    script (the generator normalises no-op scripts) *)
 Definition wf_C42 (x : c42_in) : bool :=
-  wf_base x && cfg_ok (i_cfg x) &&
+  wf_base x && cfg_ok (i_cfg x) && negb (ssl3_longpad (i_cfg x)) &&
   (relevant x || (match i_script x with [] => true | _ => false end && (i_cut x <? 0))).
 
 Definition run_C42 (v : val) : val :=
@@ -83,19 +94,23 @@ Definition agree_C42 (i o : val) : bool := val_eqb (run_C42 i) o.
 (* THE PROPERTY on the implementation's observation: delivered bytes are a prefix of the bytes the
    client wrote; if the adversary changed anything Read must end with a hard error (not io.EOF); if
    nothing was changed and the peer's CBC padding is acceptable for the version everything is delivered
-   and Read ends with io.EOF. *)
+   and Read ends the way the client's final alert says (io.EOF for close_notify, a dropped warning or no
+   alert; the remote error for a fatal alert; unexpected_message for a malformed one). *)
 Definition prop_C42 (i o : val) : bool :=
   match dec_C42 i, o with
   | Some x, VL [VB d; VZ st; VZ _] =>
     wf_base x &&
     is_prefix d (sent_bytes (i_writes x)) &&
     (if relevant x then negb (st =? 1)
-     else if pads_ok x then (st =? 1) && bytes_eqb d (sent_bytes (i_writes x))
+     else if pads_ok x then (st =? clean_status (i_close x)) && bytes_eqb d (sent_bytes (i_writes x))
      else true)
   | _, _ => false
   end.
+(* finding class 2: SSLv3, peer with long CBC padding, a bit flipped inside the padding: accepted *)
+Definition padding_modified (x : c42_in) : bool := has_pm (fst (tampered_wire x)).
 Definition kf_C42 (i : val) : Z :=
   match dec_C42 i with
-  | Some x => if wf_base x && tail_dropped x then 1 else 0
+  | Some x => if wf_base x && tail_dropped x then 1
+              else if wf_base x && padding_modified x then 2 else 0
   | None => 0
   end.
